@@ -23,11 +23,19 @@ def run(tier, seed, replay=None):
         meta = json.load(open(os.path.join(scratch, "meta.json")))
         results = [json.loads(l) for l in open(os.path.join(scratch, "results.jsonl"))]
         excluded = timeouts = notrun = 0
+        known, _ = common.known_findings(PID)
+        known_seen = set()
         for r in results:
             st = r["status"]
             if st in ("panic", "crash"):
                 if EXCLUDED.search(r.get("msg", "")):
                     excluded += 1
+                    continue
+                kf = next((k for k in known if k.get("sig", "").startswith("source:") and k["sig"][len("source:"):].replace("_", " ") in r["src"]), None)
+                if kf:
+                    if kf["id"] not in known_seen:
+                        known_seen.add(kf["id"])
+                        res.known(kf["id"], "%s :: %s (%s)" % (kf["id"], r["src"][:160], r.get("msg", "")[:120]))
                     continue
                 if len(res.violations) < 12:
                     res.violation({"property": PID, "kind": "a Go panic / fatal fault escaped into the host (%s)" % st,
